@@ -79,6 +79,7 @@ def make_data(spec):
             elif part == 'vhdx': put(0, b'vhdxfile')
             elif part == 'vhdxreg': put(0, b'vhdxfile'); put(192 * 1024, b'regi' + struct.pack('<III', 0, 0, 0))
             elif part == 'vmdk': put(0, struct.pack('<4sIIQQQQIQQ', b'KDMV', 1, 0, 100, 128, 1, 1, 512, 0, 21)); put(512, b'# Disk DescriptorFile\ncreateType="monolithicSparse"\n\x00')
+            elif part == 'vmdkfooter': put(0, struct.pack('<4sIIQQQQIQQ', b'KDMV', 1, 0, 100, 128, 1, 1, 512, 0, 0xffffffffffffffff)); put(512, b'# Disk DescriptorFile\ncreateType="monolithicSparse"\n\x00')
             elif part == 'vmdkbadver': put(0, struct.pack('<4sIIQQQQIQQ', b'KDMV', 9, 0, 100, 128, 1, 1, 512, 0, 21))
             elif part == 'vmdkbadloc': put(0, struct.pack('<4sIIQQQQIQQ', b'KDMV', 1, 0, 100, 128, 7, 1, 512, 0, 21))
             elif part == 'vdi': put(0x40, struct.pack('<I', 0xbeda107f))
@@ -154,12 +155,28 @@ def reorder(fi, w, oseed):
         s = OSet(insps); s._order = insps
         w._inspectors = s
 
-def instrument(w, faults, src):
-    """faults: {(name, chunk_index): (cls, when)}.  Returns (order, recs) ; recs[name] = dict(events, eats, fins, ...)"""
+def instrument(w, faults, src, hfaults=()):
+    """faults: {(name, chunk_index): (cls, when)}; hfaults: [[name, 'rc'|'pp', key, cls]] = a fault inside the inspector's
+    region_complete (key: region name or call index) / post_process (key: call index) hook.  On the unchanged tree the hooks
+    only run inside eat_chunk, so such a fault is the outcome of the enclosing eat_chunk call (that is what the script records).
+    Returns (order, recs) ; recs[name] = dict(events, eats, fins, ...)"""
     order = list(w._inspectors)
     recs = {}
     for insp in order:
         name = insp.NAME
+        mine = [h for h in hfaults if h[0] == name]
+        if mine:
+            def hook(orig, kind, mine=mine, name=name):
+                cnt = {'n': 0}
+                def f(*a):
+                    k = cnt['n']; cnt['n'] += 1
+                    for h in mine:
+                        if h[1] == kind and (h[2] == k or (a and h[2] == a[0])):
+                            raise make_exc(h[3], name)
+                    return orig(*a)
+                return f
+            insp.region_complete = hook(insp.region_complete, 'rc')
+            insp.post_process = hook(insp.post_process, 'pp')
         def q(insp=insp):
             try:
                 return (1 if insp.complete else 0), (1 if insp.format_match else 0), False
@@ -190,7 +207,14 @@ def instrument(w, faults, src):
             if exc is not None: raise exc
         def fin(st=st, orig_fin=orig_fin, q=q):
             st['fins'] += 1
-            orig_fin()
+            try:
+                orig_fin()
+            except Exception as e:
+                if getattr(e, '_c06_src', None) is None:
+                    try: e._c06_src = st['name']
+                    except Exception: pass
+                st['unmodelled'] = True          # the model's finish() cannot raise
+                raise
             c, m, bad = q()
             if bad: st['unmodelled'] = True
             st['events'] += [2, 0, c, m, 0, 0]
@@ -239,7 +263,7 @@ def run_session(c):
     expected = c.get('expected')
     w = fi.InspectWrapper(src, expected_format=expected, allowed_formats=c.get('allowed'))
     reorder(fi, w, c.get('oseed', 0))
-    order, recs = instrument(w, faults, src)
+    order, recs = instrument(w, faults, src, c.get('hfaults', ()))
     out = [state_str(fi, w, order, recs)]
     viol = []
     closed = False
@@ -272,7 +296,7 @@ def run_session(c):
         out.append('%s@%d|%s' % (res, pos, state_str(fi, w, order, recs)))
         # ---------------- the property, on this call
         if op == 1:
-            if exc is not None: viol.append('op %d: close() raised %s' % (k, canon(exc)))
+            if exc is not None: viol.append('op %d: close() raised %s%s' % (k, canon(exc), (' (raised inside the %s inspector)' % exc._c06_src) if getattr(exc, '_c06_src', None) else ''))
             if ref is not None:
                 try: ref.finish()
                 except Exception: ref = None
@@ -376,7 +400,7 @@ def run_detect(c):
             super().__init__(source, *a, **k)
             holder['w'] = self
             reorder(fi, self, c.get('oseed', 0))
-            holder['order'], holder['recs'] = instrument(self, faults, src)
+            holder['order'], holder['recs'] = instrument(self, faults, src, c.get('hfaults', ()))
     fi.InspectWrapper = IW
     fi.open = lambda fn, mode='r': src
     viol = []
@@ -498,6 +522,7 @@ def classify(c, io_):
     body = io_.split(' ## ')[0]
     tags = [c['op'] + ':' + c.get('kind', 'f')]
     tags.append('faults%d' % min(len(c.get('faults', [])), 3))
+    if c.get('hfaults'): tags.append('hook')
     if c.get('expected') is not None: tags.append('exp')
     if c.get('allowed'): tags.append('allow')
     if ';E' in body or body.startswith('EXN'): tags.append('raised')
@@ -589,6 +614,27 @@ def gen_cases(rng, tier):
                     spec = {'t': t, 'n': rng.choice([1024, 1500, 2048]), 'seed': rng.randrange(50)}
                     c = session(rng, spec, rng.choice([100, 128, 200, 256]), kind, e, None, [])
                     c['buf'] = buf
+                    yield c
+    # faults inside the region_complete / post_process hooks of an inspector (by call index / region name); contents with
+    # regions that complete late or only at EOF (VMDK footer flag, VHDX region tables) among them
+    HT = ['vmdkfooter', 'vmdk', 'qcow2', 'luks', 'gpt', 'zeros', 'rand', 'vmdkfooter+gpt']
+    for rep in range(1 if tier == 'quick' else 8):
+        for e in exps:
+            for kind in kinds:
+                for t in (HT if rep or kind != 'f' else HT[:4]):
+                    big = rng.random() < 0.04
+                    spec = {'t': 'vhdxreg', 'n': 300 * 1024, 'seed': 0} if big else {'t': t, 'n': rng.choice([1700, 2200, 3000]), 'seed': rng.randrange(50)}
+                    victims = ['vhdx'] if big else (['vmdk'] if 'vmdk' in t and rng.random() < 0.7 else [rng.choice(names)])
+                    hf = []
+                    for v in victims:
+                        r = rng.random()
+                        if v == 'vmdk' and 'vmdkfooter' in t and r < 0.6: hf.append([v, 'rc', 'footer', rng.choice(FAULT_CLASSES)])
+                        elif r < 0.4: hf.append([v, 'rc', rng.choice(['footer', 'header', 'descriptor', 'mbr', 'metadata', 0, 1]), rng.choice(FAULT_CLASSES)])
+                        elif r < 0.5: hf += [[v, 'rc', 'footer', rng.choice(FAULT_CLASSES)], [v, 'pp', rng.randrange(8), rng.choice(FAULT_CLASSES)]]
+                        else: hf.append([v, 'pp', rng.randrange(10), rng.choice(FAULT_CLASSES)])
+                    c = session(rng, spec, 65536 if big else rng.choice([200, 256, 300, 512, 700]), kind, e, None, [])
+                    c['hfaults'] = hf
+                    if kind != 'f' and c['ops'][-1] != 1 and rng.random() < 0.5: c['ops'].append(1)
                     yield c
     # an empty read in the MIDDLE of the stream (read(0), a transient empty read of the source, an empty chunk of an
     # iterator) followed by more data: with every expectation, no faults (then with a fault elsewhere)
